@@ -10,6 +10,8 @@ REGISTRY = {
     "C01": ("engine", "check_C01"),
     "C14": ("engine", "check_C14"),
     "C20": ("paramcheck", "check_C20"),
+    "C15": ("serial", "check_C15"),
+    "C16": ("eems2", "check_C16"),
     "C10": ("syntax", "check_C10"),
     "C11": ("syntax", "check_C11"),
     "C12": ("validate", "check_C12"),
